@@ -198,6 +198,18 @@ void dispatch(std::istringstream& in, std::ostream& out)
     else { if (isadj) throw std::runtime_error("q0xx on adj"); v = o.base->q0_xx(i,j); }
     out << "{\"v\":"; num(out, v); out << "}";
   }
+  else if (q == "allqbx") {
+    // cofactors between adjusted observations and unknowns (AdjBase classes only; M x N)
+    if (isadj) throw std::runtime_error("allqbx on adj");
+    out << "{\"v\":[";
+    for (int i=1; i<=P.M; i++) {
+      if (i>1) out << ",";
+      out << "[";
+      for (int j=1; j<=P.N; j++) { if (j>1) out << ","; num(out, o.base->q_bx(i,j)); }
+      out << "]";
+    }
+    out << "]}";
+  }
   else if (q == "allqxx" || q == "allqbb") {
     int n = q == "allqxx" ? P.N : P.M;
     out << "{\"v\":[";
